@@ -201,6 +201,26 @@ unsafe fn run(data: &[u8]) {
     // reset the tested code's persistent state
     let _ = std::fs::remove_file(format!("{base}/openbangla-keyboard/phonetic-candidate-selection.json"));
     let _ = std::fs::remove_file(format!("{base}/openbangla-keyboard/autocorrect.json"));
+    // optional user files, chosen by the unused high bits of the header's last byte: the strings the C interface hands
+    // out come from them too ("every returned string is NUL-terminated valid UTF-8" whatever a file contains)
+    let flavour = data.get(3).map(|h| (h >> 3) & 7).unwrap_or(0);
+    let dir = format!("{base}/openbangla-keyboard");
+    let _ = std::fs::create_dir_all(&dir);
+    let (ac, sel): (Option<&[u8]>, Option<&[u8]>) = match flavour {
+        1 => (Some(b"{\"a\":\"kkk\",\"k\":\"amader\",\"am\":\"\"}"), None),
+        // valid JSON syntax, but the bytes are Latin-1 / stray continuation bytes, not UTF-8
+        2 => (Some(b"{\"a\":\"caf\xE9 noir\",\"k\":\"\xFF\xFE\",\"am\":\"x\xC3\"}"), Some(b"{\"a\":\"\xE9\"}")),
+        3 => (Some("{\"a\":\"\u{1F600}\",\"k\":\"\u{0995}\u{09BE}\",\"am\":\"\u{2764}\u{FE0F} ok\"}".as_bytes()), Some("{\"a\":\"\u{0986}\u{0983}\",\"k\":\"\"}".as_bytes())),
+        4 => (Some(b"{\"a\":\"kk"), Some(b"{\"a\":")),
+        5 => (Some(b"{\"a\":\"a\\u0000b\",\"k\":\"\\ud83d\"}"), Some(b"[1,2,3]")),
+        _ => (None, None),
+    };
+    if let Some(b) = ac {
+        let _ = std::fs::write(format!("{dir}/autocorrect.json"), b);
+    }
+    if let Some(b) = sel {
+        let _ = std::fs::write(format!("{dir}/phonetic-candidate-selection.json"), b);
+    }
     let keys = key_codes();
     let mut c = Cur { d: data, i: 0 };
     let mut cfgs: Vec<Cfg> = vec![];
